@@ -80,6 +80,7 @@ def encRes : Res → Json
   | .stubChain => Json.mkObj [("r", "stub_chain")]
   | .outOfFuel => Json.mkObj [("r", "out_of_fuel")]
   | .dangling => Json.mkObj [("r", "dangling")]
+  | .notFound => Json.mkObj [("r", "not_found")]
 
 def encInstr : Instr → Json
   | .cached s c n k => listJ ["cached", natJ s, natJ c, natJ n, encKind k]
@@ -96,6 +97,7 @@ def encLabel : Label → Json
   | .stubBind t l x r => listJ [natJ t, "stub_bind", natJ l, encRef (.stub x), encRef r]
   | .lcPut t ty r => listJ [natJ t, "lc_put", natJ ty, encRef r]
   | .call t ty d res => listJ [natJ t, "call", natJ ty, natJ d, encRes res]
+  | .notFound t ty => listJ [natJ t, "not_found", natJ ty]
   | .noop t => listJ [natJ t, "noop"]
 
 def decThread (j : Json) : Except String (TyId × Nat) := do
@@ -108,7 +110,7 @@ def handle : Protocol.Handler := fun j => do
     let G ← decGraph (← field j "graph")
     let fuel ← fieldNat j "fuel"
     let sys : Sys := { mode := ← decMode (← fieldStr j "mode"), body := compile G fuel,
-                       fuel := ← fieldNat j "eval_fuel" }
+                       fails := failsTy G, fuel := ← fieldNat j "eval_fuel" }
     let threads ← (← fieldArr j "threads").mapM decThread
     let sched ← (← fieldArr j "schedule").mapM asNat
     let s := run sys (init threads) sched
